@@ -8,6 +8,7 @@
 #include "cell_divider.hpp"
 #include "epithelial_cell.hpp"
 #include "mesh_writer.hpp"
+#include "local_mesh_refiner.hpp"
 #include <atomic>
 #include <chrono>
 #include <cstring>
@@ -135,6 +136,52 @@ int main(int argc, char** argv) {
         }
         vj::out o; o.obj().key("e").str("stress").key("rounds").i(rounds).key("ok").i(ok).end_obj();
         fprintf(fo, "%s\n", o.text().c_str());
+    } else if (mode == "write") {
+        // mesh output at several thread counts on a tissue whose cells hold free slots (real edge collapses, no compaction since)
+        const long n = S["n"].i(), level = S["level"].i(), trials = S["trials"].i();
+        auto build = [&]() {
+            std::vector<cell_ptr> L;
+            local_mesh_refiner coarsen(S["lmin"].d(), S["lmax"].d(), false);
+            for (long i = 0; i < n; i++) {
+                shapes::tmesh m = shapes::sphere((int)level);
+                shapes::transform(m, 4e-6 * (1. + 0.1 * (double)(i % 3)), 2e-5 * i, 0, 0);
+                auto c = std::make_shared<epithelial_cell>(m.pos, m.tris, (unsigned)i, make_type());
+                c->initialize_cell_properties(true);
+                c->set_local_id(i);
+                try { coarsen.refine_mesh(c); } catch (std::exception&) {}
+                L.push_back(c);
+            }
+            return L;
+        };
+        auto digest = [&](const std::string& path, long& size) {
+            std::ifstream in(path, std::ios::binary); std::stringstream b; b << in.rdbuf(); const std::string s = b.str();
+            size = (long)s.size();
+            unsigned long long h = 1469598103934665603ULL; for (unsigned char ch : s) { h ^= ch; h *= 1099511628211ULL; }
+            char buf[32]; snprintf(buf, sizeof buf, "%016llx", h); return std::string(buf);
+        };
+        const std::string base = std::string(argv[3]);
+        std::string ref_c, ref_f; long ref_cs = 0, ref_fs = 0;
+        std::vector<long long> tl = S["thread_list"].ivec();
+        tl.insert(tl.begin(), 1);                                 // the reference call
+        long call = 0;
+        for (long long th : tl) for (long tr = 0; tr < (call == 0 ? 1 : trials); tr++) {
+            auto L = build();
+            long fn = 0, ff = 0; for (auto& c : L) { fn += (long)cell_tester::free_nodes(*c).size(); ff += (long)cell_tester::free_faces(*c).size(); }
+            omp_set_num_threads((int)th);
+            const std::string pc = base + ".cell.vtk", pf = base + ".face.vtk";
+            bool returned = true;
+            try { mesh_writer::write(pc, pf, L); } catch (std::exception&) { returned = false; }
+            long cs = 0, fs = 0; const std::string dc = digest(pc, cs), df = digest(pf, fs);
+            std::remove(pc.c_str()); std::remove(pf.c_str());
+            long fa = 0; for (auto& c : L) fa += (long)cell_tester::free_nodes(*c).size() + (long)cell_tester::free_faces(*c).size();
+            if (call == 0) { ref_c = dc; ref_f = df; ref_cs = cs; ref_fs = fs; }
+            vj::out o;
+            o.obj().key("e").str("write").key("call").i(call).key("threads").i(th).key("trial").i(tr).key("returned").b(returned).key("free_nodes").i(fn).key("free_faces").i(ff).key("free_after").i(fa);
+            o.key("cell_digest").str(dc).key("face_digest").str(df).key("cell_size").i(cs).key("face_size").i(fs);
+            o.key("ref_cell_digest").str(ref_c).key("ref_face_digest").str(ref_f).key("ref_cell_size").i(ref_cs).key("ref_face_size").i(ref_fs).end_obj();
+            fprintf(fo, "%s\n", o.text().c_str()); fflush(fo);
+            call++;
+        }
     } else if (mode == "exc") {
         omp_set_num_threads(threads);
         const long n = S["n"].i();
